@@ -150,7 +150,11 @@ class EqExpr:
         return f"""EQ[{self.var1}, {self.var2}]"""
 
     def filter(self, information: JobInformation):
-        return self.var1.get(information) == self.var2.get(information)
+        value = self.var1.get(information)
+
+        # A missing tag equals nothing (not even another missing tag: with the
+        # quotes forgotten, `model = bm25` compares two tags)
+        return value is not None and value == self.var2.get(information)
 
 
 class LogicExpr:
